@@ -1,27 +1,16 @@
-"""Per-property configuration of the check driver (levels, extra builds, assumptions)."""
+"""Per-property configuration of the check driver: loaded from tools/props.d/Cxx.py (CONFIG)."""
+import glob
+import os
+import runpy
 
 ZSTD = "zstd crate: decompress(compress(x)) = x and context-history independence (exercised, not proved)"
 
-PROPS = {
-    "C12": {
-        "level": "proof",
-        "assumptions": [
-            "ZSTD (zstd / zstd-safe crates) is a parameter of the model: the theorems assume decompress(compress(l, x)) = x "
-            "and that a frame is never empty; both, and the independence of the frame from the history of the "
-            "thread-local compression context, are exercised on the real library on every run (counters zstd_*), not proved",
-            "Model/Tuple.lean mirrors tuple_packing.rs (incl. its panics on malformed input, in both arithmetic profiles), "
-            "Model/SegCompress.lean mirrors segment_compression.rs and the stored-part framing of agc_compressor.rs / "
-            "decompressor.rs; tied by byte-exact correspondence on exhaustive small alphabets and random strings to 100 kB",
-            "the repetitiveness test (IEEE doubles) only selects the marker; the theorems hold for either choice, the "
-            "executable model uses Lean Float and an integer reformulation, both compared with the code around the 0.5 threshold",
-        ],
-        "trusted": [ZSTD],
-    },
-    "C20": {
-        "level": "proof",
-        "assumptions": [
-            "Model/Kmer.lean mirrors kmer.rs (canonical mode) and kmer_extract.rs::enumerate_kmers; tied by "
-            "byte-exact correspondence on exhaustive small domains and random sequences for k 1..32",
-        ],
-    },
-}
+_D = os.path.join(os.path.dirname(os.path.abspath(__file__)), "props.d")
+PROPS = {}
+CHECKS = {}
+for _p in sorted(glob.glob(os.path.join(_D, "C*.py"))):
+    _pid = os.path.basename(_p)[:-3]
+    _ns = runpy.run_path(_p)
+    PROPS[_pid] = _ns["CONFIG"]
+    if _ns.get("MANIFEST"):
+        CHECKS[_pid] = _ns["MANIFEST"]
